@@ -447,6 +447,18 @@ func (w *fzWorld) genCases(c *engine.Ctx, rng *rand.Rand) []fzCase {
 	}, nil)
 	hostile("nil timestamps", func(i *types.FetchNodeCredentialsInfo) { i.NotBefore, i.NotAfter = nil, nil }, nil)
 	hostile("bad pkix", func(i *types.FetchNodeCredentialsInfo) { i.CertificatePublicKeyPkix = world.RandBytes(44) }, nil)
+	// a valid PKIX encoding of a key of another algorithm under the declared type ed25519
+	hostile("ecdsa pkix declared as ed25519", func(i *types.FetchNodeCredentialsInfo) { i.CertificatePublicKeyPkix = sfEcdsaPkix() }, nil)
+	hostile("rsa pkix declared as ed25519", func(i *types.FetchNodeCredentialsInfo) {
+		if c := oddClientCert("rsa"); c != nil {
+			if leaf, err := x509.ParseCertificate(c.Certificate[0]); err == nil {
+				i.CertificatePublicKeyPkix, _ = x509.MarshalPKIXPublicKey(leaf.PublicKey)
+			}
+		}
+	}, nil)
+	hostile("x25519-sized raw key as pkix", func(i *types.FetchNodeCredentialsInfo) { i.CertificatePublicKeyPkix = enc.Pub }, nil)
+	hostile("key type enum out of range", func(i *types.FetchNodeCredentialsInfo) { i.CertificatePublicKeyType = 77 }, nil)
+	hostile("encryption key type enum out of range", func(i *types.FetchNodeCredentialsInfo) { i.EncryptionPublicKeyType = 77 }, nil)
 	hostile("encryption key 5 bytes", func(i *types.FetchNodeCredentialsInfo) { i.EncryptionPublicKeyBytes = world.RandBytes(5) }, nil)
 	hostile("encryption key all zero", func(i *types.FetchNodeCredentialsInfo) { i.EncryptionPublicKeyBytes = make([]byte, 32) }, nil)
 	hostile("fetch for a registered key with another nonce", func(i *types.FetchNodeCredentialsInfo) {}, nil)
@@ -682,7 +694,14 @@ func runFuzzListen(c *engine.Ctx) engine.Result {
 				}
 				w.runCase(c, fc)
 				total.Add(1)
-				if (i+1)%25 == 0 {
+				// an honest node right behind every input that breaks off inside the library's own
+				// ALPN parsing (whatever such an input leaves behind must not reach the next handshake),
+				// and after every 25 inputs otherwise
+				switch {
+				case strings.HasPrefix(fc.Class, "suffix-") || strings.HasPrefix(fc.Class, "chunk") || fc.Class == "mixed":
+					w.canaryDial(c, fc.Class+" ("+fc.Detail+")")
+					r.Count("canary_directly_after_a_parse_failure", 1)
+				case (i+1)%25 == 0:
 					w.canaryDial(c, fc.Class+" batch")
 				}
 			}
@@ -707,6 +726,7 @@ func runFuzzListen(c *engine.Ctx) engine.Result {
 	wg.Wait()
 	r.Set("connections", total.Load())
 	r.Require("canary_connects", 8)
+	r.Require("canary_directly_after_a_parse_failure", 100)
 	r.Require("temporary_errors", 50)
 	r.Require("class:signed-hostile", 10)
 	r.Require("class:signed-with-certpref", 10)
